@@ -3,6 +3,14 @@
 import json, sys
 pid = sys.argv[1]
 variant = sys.argv[2] if len(sys.argv) > 2 else ""
+theme = sys.argv[3] if len(sys.argv) > 3 else ""
+THEMES = {
+    "": "",
+    "threshold": " ADDITIONAL CONSTRAINT: the defect must NOT be observable on small inputs (strings of at most 16 bytes, containers of at most 6 elements, nesting depth at most 4, numbers of at most 8 characters): it must only manifest beyond some internal size threshold (inline-to-heap spill, hash-table growth, long arrays, wide documents, narrow counters, block-wise processing).",
+    "path": " ADDITIONAL CONSTRAINT: the defect must NOT be on the main, most-travelled code path. Put it in a rarely-used entry point, constructor, conversion, trait implementation or branch through which the property is still observable (for example an alternative way of building or obtaining the same value, a conversion impl, a borrowed-vs-owned variant, an iterator adaptor or its reverse / size_hint / nth side, a mutable accessor, an uncommon serde data-model method, an alternate formatting flag, an uncommon but legal input form) so that a harness exercising only the obvious functions would not see it.",
+    "history": " ADDITIONAL CONSTRAINT: the defect must be HISTORY-DEPENDENT: it must not be observable by a single call on fresh data in a fresh process. It needs earlier calls or operations in the same thread, or on the same object, to have happened first (state left behind by an earlier call or an earlier error, a reused buffer or cache, a clone sharing structure, an iterator that was advanced from the other end first, an operation that is wrong only when it follows a particular other operation, and so on).",
+}
+extra = THEMES[theme]
 props = {json.loads(l)['id']: json.loads(l) for l in open('/verif/properties.jsonl')}
 p = props[pid]
 d = f"/tmp/seed/{pid}{variant}"
@@ -18,7 +26,7 @@ Property that your change must break:
 Task: make ONE small, realistic source change under src/ (the kind of mistake a maintainer could plausibly make: an off-by-one, a wrong variable, a missing call on one path, a swapped branch, an over-eager optimisation, a stale cache, two cooperating sites that each look fine alone...) that BREAKS the property above, while
   (1) everything still compiles: `cargo build --offline --all-features`, and
   (2) the complete existing test-suite, unmodified, still passes: `cargo test --workspace --no-fail-fast --offline` (372 tests plus doc-tests) AND `cargo test --offline --all-features`.
-The break must need something specific to manifest - a particular multi-step sequence of operations, an unusual input, a particular option combination, a boundary value - not something that ordinary use would expose at once. Prefer subtle over blatant; do not just make a whole feature fail. {variant and 'Choose a DIFFERENT mechanism / code location than the most obvious one for this property.' or ''}
+The break must need something specific to manifest - a particular multi-step sequence of operations, an unusual input, a particular option combination, a boundary value - not something that ordinary use would expose at once. Prefer subtle over blatant; do not just make a whole feature fail. {variant and 'Choose a DIFFERENT mechanism / code location than the most obvious one for this property.' or ''}{extra}
 
 Deliver in {d}/out/:
   - patch.diff : `git diff` of your change (only files under src/), which applies cleanly with `git apply` to a clean checkout of the worktree's HEAD;
